@@ -462,6 +462,26 @@ Proof.
     cbn [allowed]. apply in_or_app. right. unfold new_region_k. rewrite Hv. left. reflexivity.
 Qed.
 
+Lemma goexport_ok : forall v, Forall (tok (allowed st (OGoExport v))) (snd (op_goexport m st v)).
+Proof.
+  intros v. unfold op_goexport, with_view, fail.
+  destruct (nth_error (views st) v) as [vw|] eqn:Hv; [|constructor].
+  destruct (is_det st (v_buf vw)) eqn:Hd.
+  - destruct m; [constructor|]. destruct (_ && _); constructor.
+  - cbn [snd]. destruct (_ >? 0); [|constructor].
+    constructor; [|constructor]. eapply whole_view_ok; eauto using incl_refl.
+Qed.
+
+Lemma goexportwrite_ok : forall v j raw,
+  Forall (tok (allowed st (OGoExportWrite v j raw))) (snd (op_goexportwrite m st v j raw)).
+Proof.
+  intros v j raw. unfold op_goexportwrite, with_view, fail.
+  destruct (nth_error (views st) v) as [vw|] eqn:Hv; [|constructor].
+  destruct (valid_idx st vw j) eqn:Hvi; [|constructor].
+  apply valid_idx_true in Hvi. destruct Hvi. unfold put_raw. cbn [snd].
+  constructor; [|constructor]. eapply elt_tch_ok; eauto using incl_refl. apply (proj1 Inv v vw Hv).
+Qed.
+
 Lemma jlen_le_mlen : forall s0 b, jlen s0 b <= mlen s0 b.
 Proof. intros. unfold jlen, mlen. destruct (getb s0 b) as [x|]; [|lia]. destruct (b_det x); unfold blen; lia. Qed.
 
@@ -529,6 +549,8 @@ Proof.
   - apply search_fwd_ok; auto. apply incl_refl.
   - apply lastindexof_ok; auto.
   - apply ctorfrom_ok; auto.
+  - apply goexport_ok; auto.
+  - apply goexportwrite_ok; auto.
 Qed.
 
 (* the regions themselves lie inside the current memory of their buffer: "inside the view" implies
